@@ -171,8 +171,8 @@ func emitRootLine(e *emitter, v, deg int, ctor string, rd radicand, k int, scale
 	}
 	rootLineCount++
 	interleave := rootLineCount%4 == 0 && k >= 100
-	if interleave && k < 320 {
-		k = 320 // state shared between Numbers shows about a block after the interleaving point
+	if interleave && k < 420 {
+		k = 420 // an error in second-order state (incr2) reaches the digits one to two blocks later
 	}
 	num, den := rd.num, rd.den
 	if scale > 1 { // non-reduced representation through the int64 / big.Int constructors
@@ -188,9 +188,9 @@ func emitRootLine(e *emitter, v, deg int, ctor string, rd radicand, k int, scale
 		if interleave {
 			// another Number of the same kind is created and used while this one is half read:
 			// Numbers must not share state
-			n.firstDigits(min(k, 100))
-			other := newRoot(v, deg, "i64", big.NewInt(3+int64(k%90)), big.NewInt(1))
-			other.firstDigits(150)
+			n.firstDigits(1 + rootLineCount%3*60)
+			other := newRoot(v, deg, "i64", big.NewInt(3+int64(rootLineCount%90)), big.NewInt(1))
+			other.firstDigits(5 + rootLineCount%2*150)
 		}
 		ds, ended := n.firstDigits(k)
 		en := 0
